@@ -356,95 +356,83 @@ def run(ctx):
     from .c04 import check_molden_atoms_unit
 
     check_molden_atoms_unit(ctx, "R12")
+    # the pure-function tags ([5D], [7F], [9G]) decide which functions the coefficients belong to; sections come in
+    # any order, so a tag that follows [MO] must survive the orbital reader (the same evaluated clause as C01-R15)
+    ctx.borrow("c01", {"R15": "R13"})
 
 
 def check_norm_expression(ctx, pred):
-    """R8: the quantity whose deviation from 1 is compared with the threshold is the quadratic form c^T S c."""
+    """R8: the norm predicate as a decision table.  `_is_normalized_properly` is interpreted (iodalint.accessors) with
+    `compute_overlap` standing for a fixed non-diagonal overlap matrix S, on orbital sets whose S-norms are known by
+    construction: all normalised; one orbital (first / last, alpha / beta) off by more or less than the threshold, too
+    large or too small; normalised for the identity instead of S.  However the routine is written (loop, einsum,
+    matrix product), its verdict must be `max_j |c_j^T S c_j - 1| <= threshold` over every orbital of both spins."""
     import numpy as np
 
-    from ..symarr import NotSymbolic, Sym, SymEval, sym_array
+    from ..accessors import AccessorEval, Raised, Rec
+    from ..symarr import NotSymbolic
 
     prog = ctx.prog
-    ctx.rule("R8", "the norm test compares |c^T S c - 1| with the threshold, orbital by orbital", "a norm computed on another scale (its square root, a sum over orbitals, the wrong axis) accepts or rejects files at a threshold other than the requested one")
-    # deviation site: abs(X - 1) (or abs(1 - X))
-    devs = []
-    for n in pred.own_nodes():
-        if isinstance(n, ast.Call) and getattr(n.func, "id", "") == "abs" and len(n.args) == 1 and isinstance(n.args[0], ast.BinOp) and isinstance(n.args[0].op, ast.Sub):
-            a, b = n.args[0].left, n.args[0].right
-            x = a if (isinstance(b, ast.Constant) and b.value == 1) else (b if (isinstance(a, ast.Constant) and a.value == 1) else None)
-            if x is not None:
-                devs.append((n, x))
-    if len(devs) != 1:
-        ctx.violate("R8", f"expected exactly one `abs(<norm> - 1)` deviation in {pred.name}, found {len(devs)}", pred, pred.node, construct="norm deviation site")
-        return
-    dev, x = devs[0]
-    pm = prog.parents(pred)
-    loops = []
-    cur = dev
-    while id(cur) in pm:
-        cur = pm[id(cur)]
-        if isinstance(cur, ast.For):
-            loops.append(cur)
-    if not loops:
-        ctx.violate("R8", "the norm deviation is not computed inside a loop over orbitals", pred, dev)
-        return
-    inner = loops[0]
-    olp_name = None
-    for n in pred.own_nodes():
-        if isinstance(n, ast.Assign) and isinstance(n.value, ast.Call) and len(n.targets) == 1 and isinstance(n.targets[0], ast.Name):
-            cs = next((c for c in pred.calls if c.node is n.value), None)
-            if cs is not None and any(g.qualname == "iodata.overlap.compute_overlap" for g in cs.callees):
-                olp_name = n.targets[0].id
-    if olp_name is None:
-        ctx.violate("R8", "the norm test does not compute the overlap matrix with compute_overlap", pred, pred.node, construct="overlap source")
-        return
-    orb_name = inner.iter.args[0].value.value.id if False else None
-    # the orbital matrix is the object whose .shape[1] bounds the loop and whose column is taken
-    for n in ast.walk(inner.iter):
-        if isinstance(n, ast.Attribute) and n.attr == "shape" and isinstance(n.value, ast.Name):
-            orb_name = n.value.id
-    ivar = inner.target.id if isinstance(inner.target, ast.Name) else None
-    if orb_name is None or ivar is None:
-        ctx.violate("R8", "the orbital loop is not `for i in range(<orbitals>.shape[1])`", pred, inner)
-        return
-    S = sym_array("S", (2, 2))
-    C = sym_array("c", (2, 3))
+    ctx.rule("R8", "the norm test accepts exactly when every orbital of both spins has |c^T S c - 1| <= threshold (evaluated as a decision table)", "a norm computed on another scale, one spin block or one orbital left out, the overlap matrix ignored: files are accepted or rejected at another threshold than the requested one")
+    co = prog.funcs.get("iodata.overlap.compute_overlap")
+    if co is None:
+        raise AnalysisError("iodata.overlap.compute_overlap not found")
+    S = np.array([[1.0, 0.5, 0.0], [0.5, 1.0, 0.25], [0.0, 0.25, 1.0]])
+
+    def normed(v, scale=1.0):
+        v = np.array(v, dtype=float)
+        return v / np.sqrt(v @ S @ v) * scale
+
+    good = [normed([1, 0, 0]), normed([1, 1, 0]), normed([1, -2, 3])]
+    def orbs(scales):
+        return np.array([g * sc for g, sc in zip(good, scales)]).T.copy()
+    eps = 1e-4
+    up, down = np.sqrt(1 + 3 * eps), np.sqrt(1 - 3 * eps)  # deviation 3e-4
+    near = np.sqrt(1 + 0.3 * eps)  # deviation 3e-5
+    ident = np.array([[1, 0, 0], [1 / np.sqrt(2), 1 / np.sqrt(2), 0], [0, 0, 1]]).T.copy()
+    ok3 = (1, 1, 1)
+    cases = [
+        ("all orbitals normalised, no beta", orbs(ok3), None, {}, True),
+        ("all orbitals normalised, alpha and beta", orbs(ok3), orbs(ok3), {}, True),
+        ("first alpha orbital 3e-4 too large", orbs((up, 1, 1)), None, {}, False),
+        ("last alpha orbital 3e-4 too large", orbs((1, 1, up)), None, {}, False),
+        ("middle alpha orbital 3e-4 too small", orbs((1, down, 1)), None, {}, False),
+        ("alpha off, beta normalised", orbs((1, up, 1)), orbs(ok3), {}, False),
+        ("alpha normalised, beta off", orbs(ok3), orbs((1, 1, down)), {}, False),
+        ("deviation 3e-5 below the default threshold", orbs((near, 1, 1)), orbs((1, near, 1)), {}, True),
+        ("deviation 3e-4 with norm_threshold=1e-3", orbs((up, 1, 1)), None, {"norm_threshold": 1e-3}, True),
+        ("deviation 3e-5 with norm_threshold=1e-5", orbs((near, 1, 1)), None, {"norm_threshold": 1e-5}, False),
+        ("normalised for the identity matrix, not for the overlap", ident, None, {}, False),
+        ("one too large and one too small by the same amount", orbs((up, down, 1)), None, {}, False),
+        # the scale of the tested quantity: the norm itself, not its square root (half the deviation) or square (twice)
+        ("norm 1 + 1.5e-4 (its square root deviates by 0.75e-4 only)", orbs((1, np.sqrt(1 + 1.5 * eps), 1)), None, {}, False),
+        ("norm 1 - 1.5e-4", orbs((1, 1, np.sqrt(1 - 1.5 * eps))), None, {}, False),
+        ("norm 1 + 0.7e-4 (its square deviates by 1.4e-4)", orbs((np.sqrt(1 + 0.7 * eps), 1, 1)), None, {}, True),
+    ]
     bad = None
     try:
-        for j in range(3):
-            env = {olp_name: S, orb_name: C, ivar: j}
-            ev = SymEval(env, None, {"np", "numpy"})
-            for st in inner.body:
-                if isinstance(st, ast.Assign) and len(st.targets) == 1 and isinstance(st.targets[0], ast.Name) and st is not pm.get(id(dev)):
-                    if any(dev is y for y in ast.walk(st)):
-                        continue
-                    ev.env[st.targets[0].id] = ev.eval(st.value)
-            got = Sym.const(ev.eval(x)) if not isinstance(ev.eval(x), np.ndarray) else None
-            want = Sym.const(0)
-            for a in range(2):
-                for b in range(2):
-                    want = want + C[a, j] * S[a, b] * C[b, j]
-            if got is None or not (got == want):
-                bad = (j, got, want)
+        for label, a, b, kw, want in cases:
+            ev = AccessorEval(prog, None, limit=20000)
+            ev.module = pred.module
+            ev.stubs = {co.qualname: lambda args, kw_: S.copy()}
+            got = ev.run_free(pred, [Rec(None, marker="basis"), np.zeros((1, 3)), a, b], dict(kw))
+            if isinstance(got, np.ndarray) and got.size == 1:
+                got = bool(got.item())
+            if not isinstance(got, (bool, np.bool_)):
+                bad = (label, f"returns `{got!r}` instead of a verdict")
                 break
+            if bool(got) != want:
+                bad = (label, f"is {'accepted' if got else 'rejected'}, expected {'accepted' if want else 'rejected'}")
+                break
+    except Raised as exc:
+        ctx.violate("R8", f"{pred.name} raises {exc.args[0]} on a well-formed orbital set", pred, pred.node, construct="norm predicate raises")
+        return
     except NotSymbolic as exc:
-        raise AnalysisError(f"{pred.qualname}: the norm expression is outside the symbolic-evaluation whitelist: {exc}") from exc
+        raise AnalysisError(f"{pred.qualname} is outside the evaluation whitelist: {exc}") from exc
     if bad:
-        j, got, want = bad
-        ctx.violate("R8", f"for orbital {j} the tested quantity is `{got!r}`, not the quadratic form c^T S c = `{want!r}`", pred, x)
+        ctx.violate("R8", f"{pred.name}: an orbital set with {bad[0]} {bad[1]} (overlap matrix with off-diagonal elements; the verdict must be max |c^T S c - 1| <= threshold over every orbital of both spins)", pred, pred.node, construct=f"norm predicate: {bad[0]}")
     else:
-        ctx.ok("R8", f"`{src_of(x)}` evaluates (on symbols) to sum_ab c[a,j] S[a,b] c[b,j] for every orbital j; deviation `{src_of(dev)}`", f"{pred.module.relpath}:{dev.lineno}")
-    # the accumulated maximum is what is compared with the threshold
-    rets = [n for n in pred.own_nodes() if isinstance(n, ast.Return) and n.value is not None]
-    thr = next((p_ for p_ in pred.params if "threshold" in p_), None)
-    okret = len(rets) == 1 and isinstance(rets[0].value, ast.Compare) and len(rets[0].value.ops) == 1 and isinstance(rets[0].value.ops[0], (ast.LtE, ast.Lt)) and isinstance(rets[0].value.comparators[0], ast.Name) and rets[0].value.comparators[0].id == thr and isinstance(rets[0].value.left, ast.Name)
-    acc = rets[0].value.left.id if okret else None
-    upd = pm.get(id(dev))
-    okmax = okret and isinstance(upd, ast.Call) and getattr(upd.func, "id", "") == "max" and any(isinstance(a, ast.Name) and a.id == acc for a in upd.args)
-    if okret and okmax:
-        ctx.ok("R8", f"the maximum deviation over all orbitals is accumulated with max() and returned as `{src_of(rets[0].value)}`", f"{pred.module.relpath}:{rets[0].lineno}")
-    else:
-        ctx.violate("R8", "the norm test does not return `max deviation <= norm_threshold`", pred, rets[0] if rets else pred.node, construct="norm verdict")
+        ctx.ok("R8", f"{pred.name}: {len(cases)} orbital sets with known S-norms (each spin, first / last orbital, too large / too small, both thresholds, identity-normalised) get the verdict max |c^T S c - 1| <= threshold", f"{pred.module.relpath}:{pred.lineno}")
 
 
 def _innermost_loop(prog, func, node):
